@@ -873,10 +873,22 @@ impl<'ast> LoweringContext<'ast> {
                             PrimitiveType::from_ast(*prim),
                         ))))
                     }
-                    ast::TypeName::StrSlice(encoding, _stdlib) => Ok(Type::DiplomatOption(
-                        Box::new(Type::Slice(Slice::Strs(*encoding))),
-                    )),
+                    ast::TypeName::StrSlice(encoding, _stdlib) => {
+                        if !self.attr_validator.attrs_supported().option {
+                            self.errors.push(LoweringError::Other(
+                                "Options of slices not supported by this backend".into(),
+                            ));
+                        }
+                        Ok(Type::DiplomatOption(Box::new(Type::Slice(Slice::Strs(
+                            *encoding,
+                        )))))
+                    }
                     ast::TypeName::StrReference(..) | ast::TypeName::PrimitiveSlice(..) => {
+                        if !self.attr_validator.attrs_supported().option {
+                            self.errors.push(LoweringError::Other(
+                                "Options of slices not supported by this backend".into(),
+                            ));
+                        }
                         let inner = self.lower_type(opt_ty, ltl, in_struct, in_path)?;
                         Ok(Type::DiplomatOption(Box::new(inner)))
                     }
